@@ -518,3 +518,19 @@ M("c04-signal-pop-not-in-finally", ["C04", "C07"], VM,
 T("t-run-opcode-inlined-in-execute", ["C01", "C02", "C07"], VM,
   "            self._run_opcode(op, arg, frame)\n\n            # Check if frame was popped (return)",
   "            try:\n                self._execute_opcode(op, arg, frame)\n            except _PendingThrow as pending:\n                self._throw(pending.value)\n            except JSTypeError as e:\n                self._handle_python_exception(\"TypeError\", str(e))\n            except JSReferenceError as e:\n                self._handle_python_exception(\"ReferenceError\", str(e))\n            except JSRangeError as e:\n                self._handle_python_exception(\"RangeError\", str(e))\n            except (TimeLimitError, MemoryLimitError):\n                raise\n            except JSError as e:\n                if not self.exception_handlers:\n                    raise\n                self._handle_python_exception(e.name, e.message)\n\n            # Check if frame was popped (return)")
+
+M("c10-compile-budget-dropped", ["C10"], RC,
+  "        self.nodes_compiled += 1\n        if self.nodes_compiled > self.MAX_PROGRAM_SIZE:\n            raise RegExpError(\"Regular expression too large\")\n", "",
+  [("C10", "C10-R3", "range")])
+M("c10-compile-budget-reset-in-recursion", ["C10"], RC,
+  "        \"\"\"Compile {n,} quantifier.\"\"\"\n", "        \"\"\"Compile {n,} quantifier.\"\"\"\n        self.nodes_compiled = 0\n",
+  [("C10", "C10-R3", "range")])
+T("t-compile-budget-constant", ["C10"], RC, "    MAX_PROGRAM_SIZE = 100000\n", "    MAX_PROGRAM_SIZE = 50000\n")
+
+M("c03-new-links-unchecked-prototype", ["C03"], VM,
+  "            proto = getattr(constructor, \"_prototype\", None)\n            if isinstance(proto, JSObject):\n                obj._prototype = proto\n",
+  "            obj._prototype = constructor._prototype\n",
+  [("C03", "C03-R4", "_new_object")])
+M("c08-function-writes-dropped-again", ["C08"], VM,
+  "            else:\n                obj._properties[key_str] = value\n\n    def _delete_property", "            else:\n                pass\n\n    def _delete_property",
+  [("C08", "C08-R2", "JSFunction:every-path-writes")])
